@@ -282,15 +282,27 @@ def to_units(ctx):
                 ctx.ob("R12.1", qual + "[ppi passed through]", kw.get("ppi") == "ppi", str(kw), s.lineno,
                        "conversion must resolve the value with the caller's ppi")
                 continue
-            if isinstance(s, ast.Assign) and value_name is not None:
-                try:
-                    got = alg.ev(s.value)
-                except Uninterpreted:
-                    continue
-                exp = atom(value_name) / (atom("ppi") * const(k))
-                ctx.ob("R12.1", qual, approx_eq(got, exp), "computes %s, expected %s" % (got, exp), s.lineno,
-                       "unit conversion factor differs from the CSS ratio")
-                found = True
+            if value_name is not None and isinstance(s, (ast.Assign, ast.Return)) and s.value is not None:
+                # the conversion: the outermost arithmetic expression over the resolved value (assigned to a local or used in place)
+                cands = []
+
+                def visit(n, inside):
+                    is_arith = isinstance(n, ast.BinOp) and isinstance(n.op, (ast.Div, ast.Mult)) and any(isinstance(x, ast.Name) and x.id == value_name for x in ast.walk(n))
+                    if is_arith and not inside:
+                        cands.append(n)
+                    for c in ast.iter_child_nodes(n):
+                        visit(c, inside or is_arith)
+
+                visit(s.value, False)
+                for c in cands:
+                    try:
+                        got = alg.ev(c)
+                    except Uninterpreted:
+                        continue
+                    exp = atom(value_name) / (atom("ppi") * const(k))
+                    ctx.ob("R12.1", qual, approx_eq(got, exp), "computes %s, expected %s" % (got, exp), s.lineno,
+                           "unit conversion factor differs from the CSS ratio")
+                    found = True
         ctx.need(found, "R12.1", "%s: conversion statement not found" % qual)
 
 
